@@ -16,7 +16,9 @@ MANIFEST = dict(
          "out exactly the head of the queue, i.e. every queued byte comes out (c17_read_progress, c17_peek_progress); "
          "a spill that reports an error has duplicated/reordered/modified nothing, removed from the source exactly "
          "what it moved and left a prefix in the destination (c17_fault_safe) - it MAY drop bytes the destination "
-         "held in MEM chunks before the call (c17_fault_drops_queued_bytes is the witness; the error is surfaced); "
+         "held in MEM chunks before the call (c17_fault_drops_queued_bytes is the witness; the error is surfaced), "
+         "and when the destination holds no MEM chunk it loses nothing: the failed transfer is exact "
+         "(c17_fault_keeps); "
          "descriptors and temp-file names are conserved and none remain after reset (c17_resources_conserved, "
          "c17_reset_releases, c17_reset_releases_all); schedules of ok / short writes / EINTR / ENOSPC with more "
          "upload dirs left than ENOSPC results to come (no EIO, no mkostemp failure, no read-only temp chunk) never "
@@ -24,10 +26,9 @@ MANIFEST = dict(
          "retried, ENOSPC falls back to the next dir, the retry loops' iteration bounds suffice - and the transfer "
          "is then an exact FIFO move (c17_retryable_never_fails, c17_retryable_fifo); under every schedule the "
          "iteration bounds of the model's retry loops are never reached, so no reported error is an artefact of the "
-         "bound (c17_fuel_sufficient). NOT PROVED: that a failed spill keeps the bytes the destination held outside "
-         "MEM chunks (only the prefix property is proved); which errno the C maps to which model fault and the "
-         "return codes under EIO / mkostemp failures / more ENOSPC than dirs are fixed by the model and compared "
-         "with the C at every fault position of 40/600 spill sequences (correspondence). Model tied "
+         "bound (c17_fuel_sufficient). NOT PROVED (correspondence only): which errno the C maps to which model "
+         "fault, and the return codes under EIO / mkostemp failures / more ENOSPC than dirs (fixed by the model, "
+         "compared with the C at every fault position of 40/600 spill sequences). Model tied "
          "to the C by differential op-sequence runs of the real chunk.c under ASan/UBSan with interposed "
          "pwritev/pwrite/mkostemp plus an independent byte-string oracle (content, counters, readability of every "
          "queued byte, temp files on disk, open descriptors after every operation)",
@@ -376,7 +377,7 @@ def gen_wsched(rng, n, maxw):
 
 
 def header(cs, tmpsz, ndirs, ws, ms, files):
-    return "seq %d %d %d %s %s %s" % (cs, tmpsz, ndirs, ws, ms,
+    return "seq %d %s %d %s %s %s" % (cs, tmpsz, ndirs, ws, ms,
                                       ",".join(str(f) for f in files) if files else "-")
 
 
@@ -398,6 +399,9 @@ def gen_random(rng, n, faulty, big=False, zero=False, maxops=30):
             if rng.random() < 0.4:
                 ms = "".join(rng.choice("kkf") for _ in range(rng.randint(1, 6)))
         ops = gen_seq(rng, nops, ecs, tmpsz, files, big=big, faulty=faulty, zero=zero)
+        if not big and rng.random() < 0.2:
+            # per-queue upload_temp_file_size: chunkqueue_set_tempdirs(q0, A), (q1, B)
+            tmpsz = "%d/%d/%d" % (tmpsz, rng.choice([0, 1, 3, 1000, 4096]), rng.choice([0, 2, 500, 2048, 70000]))
         if ops:
             lines.append(header(cs, tmpsz, ndirs, ws, ms, files) + " " + " ".join(ops))
     return lines
